@@ -2,6 +2,7 @@
 and interleavings of threads owning distinct handles to common payloads)."""
 import itertools
 import common as C
+import gen_rc
 
 PROPERTIES = ["C09"]
 MANIFEST = {
@@ -63,9 +64,25 @@ MANIFEST = {
         "design_ref": "DESIGN.md 3/C09",
     }
 }
-PROPS = ["Nstd.Rc.Props"]
+PROPS = ["Nstd.Rc.Props", "Nstd.Rc.PropsTie"]
 DRIVER = "drv_rc"
 LEAN_TARGETS = PROPS + [DRIVER]
+
+
+def gen(ctx):
+    """tie by translation: the acquire / release / exchange bodies of the CURRENT String.hpp, Variant.hpp, Document/Xml.hpp and
+    RefCount.hpp -> lean/Nstd/Generated/RcBodies.lean (tools/gen_rc.py); a body outside the understood subset is refused"""
+    ok, msg = gen_rc.run(C.REPO)
+    if ctx is not None:
+        ctx.cov.setdefault("translated", msg)
+        ctx.log("translator: " + msg)
+    return ok, msg
+
+
+def setup():
+    ok, msg = gen_rc.run(C.REPO)
+    if not ok:
+        print("rc translate:", msg)
 SOURCES = ["rc.cpp", C.REPO / "src/String.cpp", C.REPO / "src/Variant.cpp", C.REPO / "src/Memory.cpp"]
 MAXLEN = 24          # payload strings stay short (line length only; payloads are not recognised by size)
 
@@ -80,6 +97,7 @@ def unhex(t):
 
 # ---- reference: value semantics per handle + ledger consistency (the property's oracle) -------------
 import json
+LITS = [b"", b"ab", b"abcd"]    # the literals of `slitc` (harness / Driver.lean `lits`: the same table)
 FAMK = 4    # boxed elements / children per payload in the slot layout of the model (harness: FAMK)
 
 
@@ -127,7 +145,17 @@ class Ref:
         d = int(t[1])
         a = t[2] if len(t) > 2 else None
         S, V, X, P = self.S, self.V, self.X, self.P
-        if op in ("snew", "slit", "sset"): S[d] = unhex(a)
+        if op in ("snew", "slit", "sset", "slitu"): S[d] = unhex(a)
+        elif op == "slitc":
+            if int(a) >= len(LITS):
+                return False
+            S[d] = list(LITS[int(a)])
+        elif op == "scap": S[d] = []
+        elif op in ("sconst", "sconstm", "sdetach"): pass
+        elif op in ("sapps", "spluss"): S[d] = S[d] + S[int(a)]
+        elif op in ("sappc", "splusc"): S[d] = S[d] + [int(a)]
+        elif op == "spreps": S[d] = S[int(a)] + S[d]
+        elif op == "supper": S[d] = [c - 32 if 97 <= c <= 122 else c for c in S[d]]
         elif op == "sprepend": S[d] = unhex(a) + S[d]
         elif op == "sresize":
             if int(a) > len(S[d]):
@@ -144,7 +172,7 @@ class Ref:
         elif op in ("vcopy", "vassign"): V[d] = V[int(a)]
         elif op == "vclear": V[d] = ("n",)
         elif op == "vseti": V[d] = ("i", int(a))
-        elif op == "vsets": V[d] = ("s", tuple(unhex(a)))
+        elif op in ("vsets", "vctors"): V[d] = ("s", tuple(unhex(a)))
         elif op == "vapp":
             v = V[d]
             base = v[1] if v[0] == "s" else tuple(str(v[1]).encode()) if v[0] == "i" else ()
@@ -152,7 +180,7 @@ class Ref:
         elif op == "vpush":
             v = V[d]
             V[d] = ("l", (v[1] if v[0] == "l" else ()) + (("i", int(a)),))
-        elif op == "vsetl": V[d] = ("l", (("i", int(a)),))
+        elif op in ("vsetl", "vctorl"): V[d] = ("l", (("i", int(a)),))
         elif op == "vpushv":
             s_ = int(a)
             cur = V[d][1] if V[d][0] == "l" else ()
@@ -167,7 +195,7 @@ class Ref:
         elif op == "vpusha":
             v = V[d]
             V[d] = ("a", (v[1] if v[0] == "a" else ()) + (("i", int(a)),))
-        elif op == "vseta": V[d] = ("a", (("i", int(a)),))
+        elif op in ("vseta", "vctora"): V[d] = ("a", (("i", int(a)),))
         elif op == "apushv":
             s_ = int(a)
             cur = V[d][1] if V[d][0] == "a" else ()
@@ -179,7 +207,7 @@ class Ref:
             if v[0] != "a" or int(t[3]) >= len(v[1]):
                 return False
             V[d] = v[1][int(t[3])]
-        elif op in ("vputm", "vsetm"):
+        elif op in ("vputm", "vsetm", "vctorm"):
             v = V[d]
             cur = list(v[1]) if v[0] == "m" and op == "vputm" else []
             k, x = int(a), int(t[3])
@@ -193,7 +221,8 @@ class Ref:
         elif op == "vswap": V[d], V[int(a)] = V[int(a)], V[d]
         elif op in ("xcopy", "xassign"): X[d] = X[int(a)]
         elif op == "xclear": X[d] = ("n",)
-        elif op == "xsets": X[d] = ("t", tuple(unhex(a)))
+        elif op in ("xsets", "xctors"): X[d] = ("t", tuple(unhex(a)))
+        elif op == "xctore": X[d] = ("e", tuple(unhex(a)), ())
         elif op == "xelem": X[d] = ("e", tuple(unhex(a)), X[d][2] if X[d][0] == "e" else ())
         elif op == "xaddc":
             s_ = int(a)
@@ -396,7 +425,7 @@ def ref_eq_uncached(impl, ref):
                 emb[pid] = [pid_of(tk, True) for tk in e[4]]
         for k in range(4):
             h, w = hs[k], want["S"][k]
-            if h.startswith("i0."):
+            if h.startswith(("i0.", "i1.")):      # inline: attached memory / literal (i1 = not terminated)
                 val = unhex(h[3:])
             elif tops[k] is None:
                 if h != "n":
@@ -469,23 +498,26 @@ reference.eq = ref_eq
 KINDS = "svxp"
 OPS = {
     "s": ["snew", "slit", "scopy", "sassign", "sclear", "sappend", "sreserve", "sdel", "sset",
-          "sprepend", "sresize", "sreplace", "slower", "schar", "sprintf"],
+          "sprepend", "sresize", "sreplace", "slower", "schar", "sprintf",
+          "slitc", "scap", "slitu", "sconst", "sconstm", "sdetach", "sapps", "spluss", "sappc", "splusc", "spreps", "supper"],
     "v": ["vcopy", "vassign", "vclear", "vseti", "vsets", "vapp", "vpush", "vswap", "vsetl", "vpusha", "vseta", "vputm", "vsetm",
-          "vpushv", "vgetv", "apushv", "agetv"],
-    "x": ["xcopy", "xassign", "xclear", "xsets", "xelem", "xaddc", "xgetc"],
+          "vpushv", "vgetv", "apushv", "agetv", "vctors", "vctorl", "vctora", "vctorm"],
+    "x": ["xcopy", "xassign", "xclear", "xsets", "xelem", "xaddc", "xgetc", "xctors", "xctore"],
     "p": ["pnew", "pcopy", "passign", "pclear", "pswap", "praw", "pctor", "plink", "pnext", "pnextof"],
 }
 ST_ONLY = {"sprintf", "sresize", "plink", "apushv", "agetv"}   # Array growth re-copies the elements: single-threaded only   # not in thread programs (see docs/rc.md)
 W = {
-    "s": [3, 1, 4, 4, 2, 5, 2, 2, 2, 2, 2, 2, 2, 2, 1], "v": [4, 4, 2, 2, 3, 4, 3, 2, 2, 3, 1, 3, 1, 6, 4, 4, 3], "x": [4, 4, 2, 3, 4, 5, 3],
+    "s": [3, 1, 4, 4, 2, 5, 2, 2, 2, 2, 2, 2, 2, 2, 1] + [1, 1, 2, 2, 2, 1, 3, 2, 2, 2, 2, 2],
+    "v": [4, 4, 2, 2, 3, 4, 3, 2, 2, 3, 1, 3, 1, 6, 4, 4, 3] + [2, 1, 1, 1], "x": [4, 4, 2, 3, 4, 5, 3] + [2, 2],
     "p": [3, 4, 4, 2, 3, 2, 2, 4, 3, 2],
 }
 TWO = {"scopy", "sassign", "vcopy", "vassign", "vswap", "xcopy", "xassign", "pcopy", "passign", "pswap", "praw", "pctor",
-       "plink", "pnextof", "vpushv", "xaddc", "apushv"}
+       "plink", "pnextof", "vpushv", "xaddc", "apushv", "sapps", "spluss", "spreps"}
 GET = {"vgetv", "xgetc", "agetv"}
-ONE = {"sclear", "sdel", "vclear", "xclear", "pclear", "slower", "schar", "pnext"}
-NUM = {"sreserve", "vseti", "vpush", "vsetl", "pnew", "sresize", "sprintf", "vpusha", "vseta"}
-NUM2 = {"sreplace", "vputm", "vsetm"}
+ONE = {"sclear", "sdel", "vclear", "xclear", "pclear", "slower", "schar", "pnext", "sconst", "sconstm", "sdetach", "supper"}
+NUM = {"sreserve", "vseti", "vpush", "vsetl", "pnew", "sresize", "sprintf", "vpusha", "vseta", "vctorl", "vctora"}
+NUM2 = {"sreplace", "vputm", "vsetm", "vctorm"}
+assert all(len(OPS[k]) == len(W[k]) for k in OPS)
 
 
 def rbytes(rng, n):
@@ -513,15 +545,22 @@ def gen_op(rng, r, kind, handles, mt=False, setup=False):
         d = rng.choice(handles)
         grow = 0
         if op in TWO:
-            line = f"{op} {d} {rng.choice(handles)}"
+            s_ = rng.choice(handles)
+            grow = len(r.S[s_]) if op in ("sapps", "spluss", "spreps") else 0      # d == s doubles the value
+            line = f"{op} {d} {s_}"
         elif op in ONE:
             line = f"{op} {d}"
         elif op in GET:
             line = f"{op} {d} {rng.choice(handles)} {rng.choice([0, 0, 1, 2, 3])}"
         elif op == "sresize":
             line = f"{op} {d} {rng.randrange(len(r.S[d]) + 1)}"
-        elif op == "sreserve":
+        elif op in ("sreserve", "scap"):
             line = f"{op} {d} {rng.choice([0, 1, 3, 4, 7, 8, 20])}"
+        elif op == "slitc":
+            line = f"{op} {d} {rng.choice([0, 1, 2])}"
+        elif op in ("sappc", "splusc"):
+            grow = 1
+            line = f"{op} {d} {rng.choice([0x61, 0x62, 0x41, 0x7a, 0x30])}"
         elif op in NUM:
             grow = 1 if op in ("vpush", "vpusha") else 0
             line = f"{op} {d} {rng.choice([0, 1, 2, 7, 9, 16, 40, 255])}"
@@ -566,6 +605,11 @@ SMALL = {
           "xelem 1 64", "xelem 1 -", "xaddc 0 1", "xaddc 1 0", "xgetc 1 0 0", "xgetc 0 0 0"],
     "a": ["vsets 0 61", "vseti 1 7", "apushv 0 1", "apushv 1 0", "agetv 1 0 0", "agetv 0 0 0", "vpusha 0 4", "vseta 0 6",
           "vcopy 1 0", "vclear 0", "vclear 1", "vassign 0 1"],
+    # round 7: the remaining String constructors / conversion operators / append-prepend overloads, and the box constructors
+    "t": ["snew 0 6162", "scopy 1 0", "sclear 0", "sappend 0 63", "sdel 0", "slitc 0 1", "scap 0 8", "slitu 0 6162", "sconst 0",
+          "sconstm 0", "sdetach 0", "sapps 0 1", "sapps 0 0", "sappc 1 99", "spreps 1 0", "supper 0"],
+    "w": ["vctors 0 61", "vctorl 0 3", "vctora 0 4", "vctorm 0 97 1", "vcopy 1 0", "vctors 1 62", "vclear 0", "vapp 0 62",
+          "vpush 0 1", "vassign 1 0", "xctors 0 61", "xctore 0 62", "xcopy 1 0", "xelem 1 64", "xclear 0", "xassign 0 1"],
     "p": ["pnew 0 1", "pnew 1 2", "pcopy 1 0", "pcopy 2 0", "passign 1 0", "passign 0 1", "passign 0 0", "pclear 0", "pclear 1",
           "pswap 0 1", "pswap 0 0", "pnew 2 3", "passign 0 2", "pctor 1 2", "praw 0 2", "plink 0 1", "plink 1 0", "plink 0 0",
           "plink 0 2", "pnext 0", "pnext 1", "pnextof 1 0", "pclear 2"],
@@ -597,8 +641,9 @@ def gen_mt_scenario(rng, hooks, nt=None, nkinds=None):
     nt = nt or rng.choice([2, 2, 3])
     own = {t: [] for t in range(1, nt + 1)}       # thread -> [(kind, handle)]
     for kind in kinds:
-        seed_ops = {"s": ["snew 0 6162", "snew 0 61626364", "snew 0 -", "slit 0 6162"], "v": ["vsets 0 6162", "vpush 0 5", "vseti 0 7"],
-                    "x": ["xsets 0 6162", "xelem 0 61"], "p": ["pnew 3 3"]}[kind]
+        seed_ops = {"s": ["snew 0 6162", "snew 0 61626364", "snew 0 -", "slit 0 6162", "slitu 0 6162", "scap 0 8"],
+                    "v": ["vsets 0 6162", "vpush 0 5", "vseti 0 7", "vctors 0 6162", "vctorl 0 5"],
+                    "x": ["xsets 0 6162", "xelem 0 61", "xctors 0 6162", "xctore 0 61"], "p": ["pnew 3 3"]}[kind]
         first = rng.choice(seed_ops)
         h.append(first)
         r.apply(first.split())
@@ -780,7 +825,7 @@ def check(ctx):
         "at most 4 boxed elements / children per container payload and no null elements in the drivers' slot layout (famK)",
         "allocation never fails; block ids are never reused (the ledger allocator of the harness keeps released memory)",
     ]
-    proof_ok = C.proof_stage(ctx, PROPS, [DRIVER], leanchecker=(ctx.tier == "thorough"))
+    proof_ok = C.proof_stage(ctx, PROPS, [DRIVER], gen=gen, leanchecker=(ctx.tier == "thorough"))
     harness = build(ctx)
     driver = C.driver_path(DRIVER)
     if harness is None or not driver.exists():
@@ -805,7 +850,8 @@ def check(ctx):
         mtn = gen_nested_exhaustive(hooks, d2)
         mt = mtr + mte + mte3 + mtn
         ctx.cov["rule"] = (
-            f"single-threaded: corpus ({len(corpus)}) + all op sequences of length <= {depth} per handle kind over "
+            f"single-threaded: corpus ({len(corpus)}) + all op sequences of length <= {depth} per scope ({len(SMALL)} scopes: one per handle kind, Array payloads, "
+            f"the String constructors / conversion operators / append-prepend overloads, the Variant and Xml::Variant constructors) over "
             f"{sum(len(v) for v in SMALL.values())} ops (2-3 handles; self/other arguments; {len(ex)} histories"
             f"{'' if quick else ', sampled'}) + {len(rnd)} random histories of 6..40 ops over up to 4 handles of each kind; "
             f"multi-threaded: {len(mtr)} random scenarios (setup sharing payloads over the 4 handles of 1-2 kinds, 2-3 threads, 2-6 API calls) "
@@ -819,7 +865,7 @@ def check(ctx):
                                       "variant.toString() (the String inside a box is flat); boxed values of map payloads, Xml attributes (Props.lean OPEN block)",
                                       "totality of the RefCount::Ptr calls that create or walk `next` handles and of the nested calls (fuel of the cascade), "
                                       "cascade completeness for d->next = s on a shared object (Props.lean OPEN blocks)"]
-        ctx.cov["exhaustive_scope"] = (f"single-threaded length<={depth} per kind: {len(ex)} histories; "
+        ctx.cov["exhaustive_scope"] = (f"single-threaded length<={depth} per scope ({' '.join(f'{k}:{len(v)}' for k, v in SMALL.items())} ops): {len(ex)} histories; "
                                        f"schedules: all of {{t1,t2}}^{d2} for {len(mte) // 2 ** d2} scenarios, all of {{t1,t2,t3}}^{d3} for {len(mte3) // 3 ** d3} scenarios")
         ops = {}
         for h in st + mt:
